@@ -30,21 +30,23 @@ func main() {
 			Rule: "failure-free runs of a complete job: harness source with 1..6 splits x 20..80 records, seeded read chunking 0..5 incl. empty reads, 0/1/2 keyed events per record, 1..4 workers, key groups {7,256,1000,65535}, batching MaxSize {1,2,3,8,32} x MaxDelay {1,2,5} ms for the three batchers involved (key-by fetcher, per-operator batchers, operator batcher), seeded handler latencies, periodic checkpoints as noise, drain by checkpoint; oracles: every keyed event reaches exactly one handler exactly once and it is the handler of the operator owning its key group; per (split,key) offsets strictly increase (asserted from last/<split> entries in the supplied state); records of one reader arrive at each operator in read order; no watermark or barrier overtakes a record read before it (timestamps per reader strictly increasing; reported split positions vs barrier position in every operator stream); final state holds every keyed event exactly once; non-trivial = always; distinct by options hash"},
 		&lib.Prop{ID: "C16", Part: "cut", Level: "exploration", NCases: n(30, 1200), Run: c16Cut, Assumptions: clAssume,
 			Rule: "the same job with reading gated at seeded offsets so that checkpoints are triggered with an idle pipeline, mid flow, with key-by batches pending and back to back; for every checkpoint N, runner r and split i: in every operator stream no record of split i with offset < reported position arrives after r's barrier N and none with offset >= position before it; every splitter incarnation assigns every split exactly once; final state = every keyed event once; non-trivial = >=1 intermediate checkpoint; distinct by (options, positions)"},
+		&lib.Prop{ID: "C16", Part: "bulk-reads", Level: "exploration", NCases: n(8, 150), Run: c16Bulk, Assumptions: clAssume,
+			Rule: "1..2 runners, 1..2 splits of 1500..4000 records, a third of the reads return 300..2500 records at once (the reader's cursor is past the whole read when ReadEvents returns); checkpoints are requested while the records of such reads are flowing (whenever the operators' streams grew by a seeded amount); barrier-cut oracle of part cut on every stream (no record below the reported position after the barrier, none at or above it before), every keyed event exactly once in the final state; non-trivial = >=1 checkpoint during the flow and >=1 read of more than 512 records; distinct by (options, checkpoints)"},
 		&lib.Prop{ID: "C11", Part: "runner-watermarks", Level: "exploration", NCases: n(30, 1200), Run: c11Runner, Assumptions: clAssume,
 			Rule: "the same job with event timestamps increasing / reversed / random / constant / extreme (1970+1ns .. ~2255), 1..4 runners, watermark interval tuned to 1..5 ms; per operator stream and sender: watermarks never decrease, watermark >= largest timestamp delivered earlier in that stream - 1 ns (follows closely), watermark < largest timestamp that runner had keyed when it was delivered (never reaches); non-trivial = always; distinct by options"},
 		&lib.Prop{ID: "C01", Part: "full-restart", Level: "fault_enumeration", NCases: n(25, 800), Run: c01FullRestart,
 			Assumptions: append([]string{"family F: every worker of the assembly is replaced by a fresh one (new process); survivors redeployed in place are family P (see known findings)", "the job notices dead members through heartbeat expiry (FrozenClock advanced by 6 s) and the re-registration of the replacements"}, clAssume...),
-			Rule: "1..3 crashes per run at seeded logical points: idle right after a published checkpoint / mid flow after a checkpoint with post-cut records applied / mid flow with no checkpoint in the epoch / during a checkpoint after the j-th of the 2W acknowledgements reached the job (the others held, then dropped with the dying nodes), every j; all workers killed and replaced, job redeploys from its latest completed checkpoint, reading resumes from the checkpointed cursors; oracles: at every deploy round the shadow of every key is reset to the cut of the checkpoint named in the Deploy requests (frozen at the operators' acknowledgements) and every handler invocation's supplied state must equal it (no record lost, none applied twice: seen/<id> and last/<split> entries), final state = every keyed event of the input exactly once, barrier-cut oracle on every stream, deploys only to live nodes / exactly W members / one checkpoint per round, and bounded progress: a checkpoint completes again after the recovery or a stuck-state witness is shown; non-trivial = always; distinct by (options, log)"},
+			Rule:        "1..3 crashes per run at seeded logical points: idle right after a published checkpoint / mid flow after a checkpoint with post-cut records applied / mid flow with no checkpoint in the epoch / during a checkpoint after the j-th of the 2W acknowledgements reached the job (the others held, then dropped with the dying nodes), every j; all workers killed and replaced, job redeploys from its latest completed checkpoint, reading resumes from the checkpointed cursors; oracles: at every deploy round the shadow of every key is reset to the cut of the checkpoint named in the Deploy requests (frozen at the operators' acknowledgements) and every handler invocation's supplied state must equal it (no record lost, none applied twice: seen/<id> and last/<split> entries), final state = every keyed event of the input exactly once, barrier-cut oracle on every stream, deploys only to live nodes / exactly W members / one checkpoint per round, and bounded progress: a checkpoint completes again after the recovery or a stuck-state witness is shown; non-trivial = always; distinct by (options, log)"},
 		&lib.Prop{ID: "C15", Part: "kf-partial-redeploy", Level: "fault_enumeration", NCases: n(1, 1), Run: kfPartialRedeploy,
 			Rule: "deterministic reproducer of the known finding at job level (family P): one of two workers dies with an idle pipeline, the survivor is redeployed in place with a replacement, GC runs, reading continues; the handler-side state oracle / final-state check show the loss"},
 		&lib.Prop{ID: "C15", Part: "assembly-fake", Level: "fault_enumeration", NCases: n(200, 20000), Run: c15Fake,
 			Assumptions: []string{"fast tier: the real jobs.Job (registry, liveness, assembly, snapshot store, FrozenClock) with fake operators and source runners that answer Deploy / StartCheckpoint and acknowledge on request", "'live' is what the job can know: registered and last heartbeat within the 5 s deadline on the job's clock at the moment of the call", "liveness is restated as bounded progress: after faults stop, 20 rounds of (6 s pass, heartbeats, checkpoint tick, acknowledgements) must publish a checkpoint; no progress is a violation, reported with the stuck-state witness when there is one"},
-			Rule: "scripts of 10..50 seeded steps over W (1..3) workers plus 0..2 standbys per kind: register / deregister / kill (stops answering and heartbeating) / 3 s pass with heartbeats / 6 s pass without / checkpoint tick / all or half of the members acknowledge / next deploy to a node fails; after every step the job settles and every Deploy call seen so far must have gone to a node that was registered and live at that moment, naming exactly W distinct operators; then faults stop, fresh nodes fill up to W live of each kind, and checkpointing must resume within the bound; non-trivial = >=1 Deploy call; distinct by script hash"},
+			Rule:        "scripts of 10..50 seeded steps over W (1..3) workers plus 0..2 standbys per kind: register / deregister / kill (stops answering and heartbeating) / 3 s pass with heartbeats / 6 s pass without / checkpoint tick / all or half of the members acknowledge / next deploy to a node fails; after every step the job settles and every Deploy call seen so far must have gone to a node that was registered and live at that moment, naming exactly W distinct operators; then faults stop, fresh nodes fill up to W live of each kind, and checkpointing must resume within the bound; non-trivial = >=1 Deploy call; distinct by script hash"},
 		&lib.Prop{ID: "C15", Part: "real-recovery", Level: "fault_enumeration", NCases: n(12, 400), Run: c01FullRestart,
 			Assumptions: append([]string{"slow tier: real workers; the same scenarios as C01/full-restart, judged for C15: deploys only to live nodes, exactly W members, one checkpoint per deploy round, checkpointing resumes after the recovery (or stuck-state witness), replacement workers keep processing to the end of the input"}, clAssume...),
-			Rule: "see C01/full-restart (crash points incl. during a checkpoint after the j-th acknowledgement); C15 oracles: deployOracle + bounded progress (a checkpoint is published after the last recovery) + every record of the input processed by the recovered assembly"},
+			Rule:        "see C01/full-restart (crash points incl. during a checkpoint after the j-th acknowledgement); C15 oracles: deployOracle + bounded progress (a checkpoint is published after the last recovery) + every record of the input processed by the recovered assembly"},
 		&lib.Prop{ID: "C14", Part: "savepoint", Level: "exploration", NCases: n(20, 600), Run: c14Savepoint,
 			Assumptions: append([]string{"local-directory storage (the artifact code copies files)", "restore = a new job created with SavepointURI after every worker and the job were killed and the working storage and the job's checkpoints directory were deleted"}, clAssume...),
-			Rule: "a job builds state (memory only or flushed, by dkv tuning; timers pending), 0..2 periodic checkpoints, then a savepoint is requested when idle / mid flow / while a periodic checkpoint is in progress with its acknowledgements held (once or twice); the job continues (more records, more checkpoints, retention); everything is killed and ALL working storage deleted; a new job starts from the savepoint URI with the same or a different worker count; oracles: the request folds into the pending checkpoint (same id, no extra StartCheckpoint), first phase undisturbed (handler-side state oracle), after the restore the shadow is the cut of the savepoint's checkpoint and every handler invocation's supplied state must equal it, every split resumes from the recorded position, pending timers fire, every keyed event of the input takes effect exactly once; non-trivial = always; distinct by (options, mode, positions)"},
+			Rule:        "a job builds state (memory only or flushed, by dkv tuning; timers pending), 0..2 periodic checkpoints, then a savepoint is requested when idle / mid flow / while a periodic checkpoint is in progress with its acknowledgements held (once or twice); the job continues (more records, more checkpoints, retention); everything is killed and ALL working storage deleted; a new job starts from the savepoint URI with the same or a different worker count; oracles: the request folds into the pending checkpoint (same id, no extra StartCheckpoint), first phase undisturbed (handler-side state oracle), after the restore the shadow is the cut of the savepoint's checkpoint and every handler invocation's supplied state must equal it, every split resumes from the recorded position, pending timers fire, every keyed event of the input takes effect exactly once; non-trivial = always; distinct by (options, mode, positions)"},
 	)
 }
